@@ -49,13 +49,21 @@ MCAnswers(c) ==
       [] OTHER -> {}
 
 \* interesting cut points: one byte, just short of / exactly at / one past the end of the head item, everything
-Cuts == LET n1 == Len(ItemText(Head(stream))) - got IN {1, n1 - 1, n1, n1 + 1, Remaining} \cap (1..Remaining)
+Cuts == LET n1 == Head(stream).n - got IN {1, n1 - 1, n1, n1 + 1, Remaining} \cap (1..Remaining)
 
 Init == \E p \in {2} : InitWith([P |-> p, maxkey |-> 2])
-Next == \/ \E c \in MCIssues : Issue(c[1], c[2], c[3], c[4], c[5], c[6])
-        \/ \E a \in (IF srvq = <<>> THEN {} ELSE MCAnswers(Head(srvq))) : Respond(a)
-        \/ \E d \in (IF stream = <<>> THEN {} ELSE Cuts) : Deliver(d)
-        \/ \E d \in {1, 2} : Advance(d)
+MCReject  == \E c \in MCIssues : IssueRejected(c[1], c[2], c[3], c[4], c[5], c[6])
+MCAccept  == \E c \in MCIssues : IssueAccepted(c[1], c[2], c[3], c[4], c[5], c[6])
+MCRespond == \E a \in (IF srvq = <<>> THEN {} ELSE MCAnswers(Head(srvq))) : Respond(a)
+MCDeliver == \E d \in (IF stream = <<>> THEN {} ELSE Cuts) : Deliver(d)
+MCTick    == \E d \in {1, 2} : Tick(d)
+MCExpire  == \E d \in {1, 2} : Expire(d)
+Next == \/ MCReject
+        \/ MCAccept
+        \/ MCRespond
+        \/ MCDeliver
+        \/ MCTick
+        \/ MCExpire
         \/ Lose("ConnectionDone", "bye")
 Spec == Init /\ [][Next]_vars
 Bound == nextid <= MaxCmds + 1 /\ now <= 4 /\ TLCGet("level") <= MaxLevel
